@@ -183,6 +183,7 @@ class FakeSocket(Scripted):
         self.blocking = None
         self.wrapped = None     # kwargs of FakeContext.wrap_socket
         self.options = {}
+        self.decide_sendto = None
 
     def __repr__(self):
         return "<FakeSocket %s %s<-%s>" % (self.name, self.sockname, self.peername)
@@ -248,7 +249,11 @@ class FakeSocket(Scripted):
 
     def sendto(self, data, da):
         data = bytes(data)
-        item = self._next("sendto")
+        if self.decide_sendto is not None:      # callable(data, da) -> script item, instead of the script
+            self.calls["sendto"] = self.calls.get("sendto", 0) + 1
+            item = self.decide_sendto(data, da)
+        else:
+            item = self._next("sendto")
         if item[0] == "full":
             self._record("sendto", (data, da), len(data))
             return len(data)
@@ -459,7 +464,11 @@ class FakeUdpHandler(Scripted):
 
     def send(self, data, da):
         data = bytes(data)
-        item = self.decide(data, da) if self.decide else self._next("send")
+        if self.decide:
+            self.calls["send"] = self.calls.get("send", 0) + 1
+            item = self.decide(data, da)
+        else:
+            item = self._next("send")
         if item[0] == "full":
             self._record("send", (data, da), len(data))
             return len(data)
@@ -606,3 +615,101 @@ class UniqueBytes(object):
 
     def left(self):
         return len(self.pool) - self.i
+
+
+# --------------------------------------------------------------------------
+# loopback scheduler with virtual time
+
+
+class RecDeque(deque):
+    """A deque that remembers everything ever appended (``rxPkts=`` / ``rxMsgs=``
+    constructor parameters of the stacks): the stack may consume its queue in the
+    same service call, the history stays."""
+
+    def __init__(self, *pa):
+        super(RecDeque, self).__init__(*pa)
+        self.seen = []
+
+    def append(self, item):
+        self.seen.append(item)
+        super(RecDeque, self).append(item)
+
+
+class Loop(object):
+    """Service-call scheduler for real loopback sockets (or doubles).
+
+    * operations are registered as (label, callable, weight); ``run`` executes a
+      seeded random interleaving, ``until`` repeats a fixed round of operations
+      until a condition holds or a bound on the number of rounds is reached;
+    * time is virtual: ``clock`` has the Store ``.stamp`` protocol (Stamper) and
+      only ``advance`` moves it;
+    * wall-clock is used for one thing only: a generous watchdog that turns the
+      case *inconclusive* (never a verdict);
+    * ``pace`` optionally sleeps a few hundred microseconds per round so that the
+      kernel can move loopback bytes; verdicts are counted in rounds."""
+
+    def __init__(self, clk=None, wall_limit=20.0, pace=0.0):
+        import time as _time
+        self._time = _time
+        self.clock = clk if clk is not None else clock()
+        self.ops = []
+        self.trace = []
+        self.calls = 0
+        self.wall_limit = wall_limit
+        self.pace = pace
+        self.t0 = _time.monotonic()
+
+    def add(self, label, fn, weight=1):
+        self.ops.append((label, fn, weight))
+
+    def remove(self, prefix):
+        self.ops = [o for o in self.ops if not o[0].startswith(prefix)]
+
+    def watchdog(self):
+        if self._time.monotonic() - self.t0 > self.wall_limit:
+            from vf.core import Inconclusive
+            raise Inconclusive("wall-clock watchdog (%.0fs) in loopback scheduler after %d service calls"
+                               % (self.wall_limit, self.calls))
+
+    def call(self, label, fn):
+        self.trace.append(label)
+        self.calls += 1
+        return fn()
+
+    def step(self, rng):
+        total = sum(w for _, _, w in self.ops)
+        x = rng.random() * total
+        for label, fn, w in self.ops:
+            x -= w
+            if x < 0:
+                break
+        self.call(label, fn)
+        return label
+
+    def run(self, rng, n):
+        for _ in range(n):
+            self.step(rng)
+        self.watchdog()
+
+    def advance(self, dt):
+        self.clock.stamp = self.clock.stamp + dt
+        self.trace.append("t+%g" % dt)
+
+    def until(self, cond, round_ops, max_rounds, dt=0.0):
+        """-> number of rounds used (0 if cond already holds) or None when the bound is hit"""
+        if cond():
+            return 0
+        for r in range(1, max_rounds + 1):
+            if dt:
+                self.advance(dt)
+            for label, fn in round_ops:
+                self.call(label, fn)
+            if cond():
+                return r
+            if self.pace:
+                self._time.sleep(self.pace)
+            self.watchdog()
+        return None
+
+    def tail(self, n=40):
+        return self.trace[-n:]
